@@ -15,7 +15,7 @@ Values are trees. What a tree cannot say is named here:
 External text functions (`strconv.FormatFloat`, `strconv.ParseFloat`, `strconv.Quote`, `Time.String`)
 are not guessed: the model answers `unsupported`.
 -/
-namespace Tengo.Model
+namespace Tengo.Model.Val
 
 abbrev Bytes := List UInt8
 
@@ -305,7 +305,7 @@ mutual
     | .bytes s => .bytes s
     | .time n => .time n
     | .fn => .fn
-    | .builtin n => .builtin n
+    | .builtin _ => .builtin []          -- BuiltinFunction.Copy keeps Value only, not Name
     | .userfn => .userfn
   def copyList : VList → VList
     | .nil => .nil
@@ -526,4 +526,4 @@ def Kind.goName : Kind → String
   | .compiledFunction => "CompiledFunction" | .builtinFunction => "BuiltinFunction"
   | .userFunction => "UserFunction"
 
-end Tengo.Model
+end Tengo.Model.Val
